@@ -1,5 +1,6 @@
-(* C13/Historic.v — the behaviour of sql.go BEFORE the fix: commits (D44 D45 D46 D48), kept as small
-   models so that the findings stay machine-checked (witnesses by vm_compute). *)
+(* C13/Historic.v — the behaviour of sql.go / csv.go BEFORE the fix: commits (D44 D45 D46 D48, and the
+   lone empty CSV field), kept as small models so that the findings stay machine-checked (witnesses
+   by vm_compute). *)
 From Coq Require Import Strings.String.
 Require Import PG.Base.Bytes PG.Base.Value PG.C13.Lib PG.C13.Model PG.C13.Spec.
 Import List ListNotations.
@@ -46,3 +47,24 @@ Proof. eexists. split; [vm_compute; reflexivity|]. split; [vm_compute; lia|]. vm
 Lemma old_json_refuted :
   json_read (B "{" ++ old_json_key (B "a\") ++ B ":1}") = None.
 Proof. vm_compute. reflexivity. Qed.
+
+(* csv.go before "write a lone empty field as """: every record went through csv.Writer.Write, so a
+   record of one empty field became an empty line.  One column, rows NULL / "" / "v": the RFC 4180
+   reader (every line a record) still sees all rows, a reader that skips empty lines loses two. *)
+Definition old_TableToCSV (t : table) : bytes :=
+  match t_cols t with
+  | [] => []
+  | _ => csv_record (map c_name (t_cols t))
+         ++ concat (map (fun r => csv_record (map (csv_cell (fun _ => []) (fun _ => []) (fun _ => []) r) (t_cols t))) (t_rows t))
+  end.
+Definition w_csv_table : table :=
+  {| t_name := B "t"; t_cols := [ {| c_name := B "c"; c_type := B "text"; c_typid := 25 |} ];
+     t_rows := [ [ (B "c", VNil) ]; [ (B "c", VStr []) ]; [ (B "c", VStr (B "v")) ] ]; t_rowcount := 3 |}.
+Lemma old_csv_blank_refuted :
+  old_TableToCSV w_csv_table = B "c" ++ [x0a; x0a; x0a] ++ B "v" ++ [x0a]
+  /\ csv_blank false true (old_TableToCSV w_csv_table) = true
+  /\ csv_read (old_TableToCSV w_csv_table) = Some [ [B "c"]; [[]]; [[]]; [B "v"] ]
+  /\ csv_read_skip (old_TableToCSV w_csv_table) = Some [ [B "c"]; [B "v"] ]
+  /\ csv_read_skip (old_TableToCSV w_csv_table)
+     <> Some (csv_records (fun _ => []) (fun _ => []) (fun _ => []) w_csv_table).
+Proof. repeat split; vm_compute; try reflexivity; intros H; discriminate H. Qed.
